@@ -13,7 +13,9 @@ RULE = ('3..8 series (lengths 2..6, ndim 1..2, duplicates allowed, list or matri
         'thorough tier), a recording monitor_distances callback. Oracle: keys exactly 0..k-1, the sets partition range(n), '
         'len(means) == k, every series is at least as close (reference DTW under the given options) to the mean of its own '
         'cluster as to any other mean, iterations <= max_it + 1, the last monitor call (flag True) agrees with the returned '
-        'assignment. Non-trivial: k >= 2, n >= k+2, >= 2 non-empty clusters and >= 2 iterations performed.')
+        'assignment. Refit leg: one model object and one options dict fitted first on short and then on longer series; the '
+        'second fit must satisfy the same postcondition, leave the options dict as given and equal the result of a fresh '
+        'model under the same seed. Non-trivial: k >= 2, n >= k+2, >= 2 non-empty clusters and >= 2 iterations performed.')
 ASSUMPTIONS = ['initialize_sample_size is kept <= n - k (the default bound); fit_fast / k-medoids initialisation are not '
                'part of the property', 'nearest-mean check with relative tolerance 1e-9']
 
@@ -144,8 +146,94 @@ def run(case):
     return res
 
 
+@st.composite
+def _case_refit(draw):
+    """Two fits with one model object (and one options dict): first on short series, then on longer ones."""
+    ndim = draw(st.sampled_from([1, 1, 2]))
+    n1, n2 = draw(st.integers(3, 5)), draw(st.integers(4, 7))
+    first = [draw(gen.series(2, 3, 'L', ndim)) for _ in range(n1)]
+    second = [draw(gen.series(5, 9, 'L', ndim)) for _ in range(n2)]
+    return {'first': first, 'second': second, 'ndim': ndim, 'k': draw(st.integers(2, 3)), 'seed': draw(st.integers(0, 10 ** 6)),
+            'window': draw(st.sampled_from([None, None, None, 2, 4])), 'penalty': draw(st.sampled_from([None, None, 0.5])),
+            'use_c': draw(st.booleans()), 'init': draw(st.sampled_from(['kmeans++', 'kmeans++', 'random']))}
+
+
+def run_refit(case):
+    import random
+    import numpy as np
+    from dtaidistance.clustering.kmeans import KMeans
+    res = Res()
+    nd, k = case['ndim'], case['k']
+    res.cls('ndim=%d' % nd, 'init=' + case['init'], 'use_c' if case['use_c'] else 'python',
+            'window' if case['window'] is not None else 'no-window')
+    given = {}
+    if case['window'] is not None:
+        given['window'] = case['window']
+    if case['penalty'] is not None:
+        given['penalty'] = case['penalty']
+    if case['use_c']:
+        given['use_c'] = True
+    kw = {'k': k, 'max_it': 3, 'max_dba_it': 3, 'show_progress': False}
+    if case['init'] == 'random':
+        kw['initialize_with_kmeanspp'] = False
+    A = [np.array(s, dtype=np.double) for s in case['first']]
+    B = [np.array(s, dtype=np.double) for s in case['second']]
+
+    def fit(model, data):
+        np.random.seed(case['seed'])
+        random.seed(case['seed'])
+        return libcall(model.fit, data, use_parallel=False)
+    opts = dict(given)
+    model, exc = libcall(KMeans, dists_options=opts, **kw)
+    if exc:
+        res.fail('refit:init:' + exc, 'KMeans(...) raised')
+        return res
+    _, exc = fit(model, A)
+    if exc:
+        res.count('first_fit_raised')
+        return res
+    got, exc = fit(model, B)
+    fresh_model, _ = libcall(KMeans, dists_options=dict(given), **kw)
+    exp, exc2 = fit(fresh_model, B)
+    if exc2:
+        res.count('fresh_fit_raised')
+        return res
+    if exc:
+        res.fail('refit:' + exc, 'second fit on the same model raised, a fresh model does not')
+        return res
+    if opts != given:
+        res.fail('refit:options-modified', 'the options dict given to KMeans %r became %r' % (given, opts))
+    # the second fit is a fit with the options as given: same postcondition (against the reference DTW) ...
+    clusters, it = got
+    means = [np.asarray(m, dtype=float).tolist() for m in model.means]
+    rkw = {'window': case['window'], 'penalty': case['penalty']}
+    S = case['second']
+    if sorted(int(i) for v in clusters.values() for i in v) != list(range(len(S))) or len(means) != k:
+        res.fail('refit:partition', 'second fit: clusters %r' % ({a: sorted(b) for a, b in clusters.items()},))
+        return res
+    for c, idxs in clusters.items():
+        for i in idxs:
+            ds = [ref.ref_dtw(S[i], m, **rkw) for m in means]
+            if not ref.leq(ds[int(c)], min(ds)):
+                res.fail('refit:nearest', 'second fit: series %d is in cluster %d at distance %r but mean %d is at %r'
+                         % (i, c, ds[int(c)], ds.index(min(ds)), min(ds)))
+                break
+    # ... and, the procedure being deterministic for a given seed, the same result as a model that has fitted nothing before
+    same = ({int(a): sorted(int(x) for x in b) for a, b in clusters.items()} ==
+            {int(a): sorted(int(x) for x in b) for a, b in exp[0].items()}) and it == exp[1] and \
+        all(np.shape(a) == np.shape(b) and
+            np.allclose(np.asarray(a, dtype=float), np.asarray(b, dtype=float), rtol=1e-9, atol=1e-12)
+            for a, b in zip(model.means, fresh_model.means))
+    if not same:
+        res.fail('refit:differs-from-fresh-model', 'second fit gives %r (%d iterations), a fresh model with the same seed %r (%d)'
+                 % ({a: sorted(b) for a, b in clusters.items()}, it, {a: sorted(b) for a, b in exp[0].items()}, exp[1]))
+    res.nontrivial = k >= 2 and sum(1 for v in clusters.values() if v) >= 2
+    return res
+
+
 def legs(tier):
-    return [Leg('kmeans', _case(tier != 'quick'), run, 4800, 48000, max_shrink_buckets=6)]
+    return [Leg('kmeans', _case(tier != 'quick'), run, 4800, 48000, max_shrink_buckets=6),
+            Leg('refit', _case_refit(), run_refit, 1200, 12000, max_shrink_buckets=4)]
 
 
 REGIONS = {}
